@@ -120,6 +120,21 @@ theorem C02_last_set_wins (hash : κ → Nat) (N : Nat) (ops : List (Op κ ν)) 
     simp only [Option.map_some, Option.some.injEq] at hw
     rw [hw]; rfl
 
+/-- a plain history with a growing resize, a refused resize, `resize(t, 0)` and `new`: the hypothesis of `C02_last_set_wins`
+    is met, and the last write is what the theorem says `get` answers (7 for key 9: set after the `resize(t, 0)`; nothing
+    for key 4: its `set` came before it) -/
+example :
+    let ops : List (Op Nat Nat) := [.set 0 4 1, .resize 0 40, .set 0 9 2, .resize 0 1, .resize 0 0, .set 0 9 7, .new 1, .len 0]
+    (∀ op ∈ ops, op.isPlain) ∧ lastWrite 0 9 ops none = some 7 ∧ lastWrite 0 4 ops none = none ∧
+    (run cfgNow (fun k => k) (fresh cfgNow Nat Nat 2) ops).toOption.map
+      (fun r => r.1.map (fun t => ((get (fun k => k) t 9).toOption.map (fun o => match o with | .val v => v | _ => 0),
+                                   (get (fun k => k) t 4).toOption.map (fun o => match o with | .raised _ => 99 | _ => 0))))
+      = some [(some 7, some 99), (some 0, some 99)] := by
+  refine ⟨?_, by decide, by decide, by decide⟩
+  intro op h
+  simp only [List.mem_cons, List.not_mem_nil, or_false] at h
+  rcases h with h | h | h | h | h | h | h | h <;> subst h <;> simp [Op.isPlain]
+
 /-! ### corollaries -/
 
 /-- **`len` is the number of bindings**, after every history, for every table variable -/
